@@ -952,87 +952,321 @@ fn check_crafted(c: &Crafted, info: &mut CaseInfo) -> CheckResult {
     Ok(())
 }
 
+/// One message offered to the requester of session X.
+#[derive(Clone, Debug, Serialize, Deserialize)]
+enum OrderMsg {
+    /// message `i` of the real session X (own) or Y (foreign), as the responder sent it
+    Real { foreign: bool, i: u8 },
+    /// the response / SyncEnd whose index is (responses accepted so far) + delta: the real message of
+    /// session X with that index when `real` and there is one, otherwise a crafted well-formed response
+    Relative { delta: i8, real: bool },
+    /// crafted well-formed SyncResponse (session X or X^xor) with `ncmds` 3-byte commands
+    Response { sess_xor: u8, index: u8, ncmds: u8, push: bool },
+    /// crafted SyncEnd
+    End { sess_xor: u8, max_index: u8 },
+    EndSession { sess_xor: u8 },
+    Offer { sess_xor: u8 },
+}
+
+#[derive(Clone, Debug, Serialize, Deserialize)]
+enum OrderOp {
+    Receive(OrderMsg),
+    /// `SyncRequester::poll` with the full-size buffer, or one too small for any message
+    Poll { small: bool },
+}
+
 #[derive(Clone, Debug, Serialize, Deserialize)]
 struct OrderCase {
     /// true: requester created by a real `poll` (state Start); false: `new_session_id` (Waiting)
     via_poll: bool,
     /// this many messages of session X are delivered in order first
     prefix: u8,
-    /// (from session Y instead of X, message index)
-    seq: Vec<(bool, u8)>,
+    ops: Vec<OrderOp>,
 }
 
 fn order_case() -> impl Strategy<Value = OrderCase> {
-    let step = prop_oneof![
-        5 => (Just(false), 0u8..5),
-        2 => (Just(true), 0u8..5),
+    let xor = || prop_oneof![4 => Just(0u8), 1 => 1u8..=255];
+    let msg = prop_oneof![
+        3 => Just(OrderMsg::Relative { delta: 0, real: true }),
+        5 => (-2i8..5, any::<bool>()).prop_map(|(delta, real)| OrderMsg::Relative { delta, real }),
+        3 => (prop::bool::weighted(0.3), 0u8..5).prop_map(|(foreign, i)| OrderMsg::Real { foreign, i }),
+        2 => (xor(), 0u8..6, 0u8..4, prop::bool::weighted(0.25)).prop_map(|(sess_xor, index, ncmds, push)| OrderMsg::Response { sess_xor, index, ncmds, push }),
+        1 => (xor(), 0u8..6).prop_map(|(sess_xor, max_index)| OrderMsg::End { sess_xor, max_index }),
+        1 => prop_oneof![xor().prop_map(|sess_xor| OrderMsg::EndSession { sess_xor }), xor().prop_map(|sess_xor| OrderMsg::Offer { sess_xor })],
     ];
-    (any::<bool>(), 0u8..4, prop::collection::vec(step, 1..10)).prop_map(|(via_poll, prefix, seq)| OrderCase { via_poll, prefix, seq })
+    let op = prop_oneof![
+        5 => msg.prop_map(OrderOp::Receive),
+        3 => prop::bool::weighted(0.1).prop_map(|small| OrderOp::Poll { small }),
+    ];
+    (any::<bool>(), 0u8..4, prop::collection::vec(op, 1..14)).prop_map(|(via_poll, prefix, ops)| OrderCase { via_poll, prefix, ops })
 }
 
-/// Valid messages of two sessions delivered in any order (replays, gaps, foreign session) to a
-/// requester of session X.
+/// Request kind (0 SyncRequest, 1 RequestMissing, 2 SyncResume, 3 EndSession), session id and, for a
+/// SyncResume, the response index it names, of a `SyncType::Poll` message (independent parse).
+fn parse_poll_out(b: &[u8]) -> Option<(u32, u128, Option<u64>)> {
+    let (t, b) = take::<u32>(b)?;
+    if t != 0 {
+        return None;
+    }
+    let (k, b) = take::<u32>(b)?;
+    if k > 3 {
+        return None;
+    }
+    let (s, b) = take::<u128>(b)?;
+    let ri = if k == 2 { Some(take::<u64>(b)?.0) } else { None };
+    Some((k, s, ri))
+}
+
+fn crafted_response(session: u128, index: u64, ncmds: u8, push: bool) -> Vec<u8> {
+    let metas: Vec<MetaSpec> = (0..ncmds).map(|k| MetaSpec { id: k.wrapping_add(index as u8).wrapping_mul(3), prio: 1, p: 1, parent: 1, policy_len: 0, len: 3 }).collect();
+    let mut m = Vec::new();
+    if push {
+        enc(&3u32, &mut m);
+    }
+    enc_response(session, index, &metas, &mut m);
+    if push {
+        enc(&spec_id(9), &mut m);
+    }
+    for k in 0..ncmds {
+        m.extend_from_slice(&[k, 0xc1, 0xd2]);
+    }
+    m
+}
+
+/// One requester of session X driven through a generated sequence of receive / poll calls (valid
+/// messages of two real sessions, crafted well-formed messages with chosen session and index, in any
+/// order, with the resync round trip in between).
+///
+/// Model (from the property statement and the documented protocol): `accepted` = number of responses
+/// of this session accepted so far. Commands may only come from a SyncResponse of session X whose
+/// index equals `accepted`; a rejected message never advances it, whatever happens in between; a
+/// SyncResume names the last response received (`accepted - 1`) and cannot be sent before any
+/// response was received; once the session ended (SyncEnd / EndSession accepted, EndSession sent)
+/// nothing more is accepted.
 fn check_order(w: &mut World, c: &OrderCase, info: &mut CaseInfo) -> CheckResult {
-    let gid = w.gid;
+    let World { gid, buf, rt, sess_x, sess_y, .. } = w;
+    let gid = *gid;
+    let mut empty = MemStorageProvider::default();
+    let cache = PeerCache::new();
     let mut req = if c.via_poll {
         let mut r = SyncRequester::new(gid, FixedRng(SID_X));
-        let mut empty = MemStorageProvider::default();
-        let cache = PeerCache::new();
-        let p = r.poll(&mut w.buf, &mut empty, &cache.session_heads(), &mut w.rt.traversal.primary);
+        let p = r.poll(buf, &mut empty, &cache.session_heads(), &mut rt.traversal.primary);
         ensure!(p.is_ok(), "harness: poll failed", "{p:?}");
+        let out = parse_poll_out(&buf[..p.as_ref().map_or(0, |x| x.0)]);
+        ensure!(matches!(out, Some((0, SID_X, None))), "first poll of a new requester is not a SyncRequest of its session", "{out:?}");
         r
     } else {
         SyncRequester::new_session_id(gid, SID_X)
     };
     let mut accepted = 0u64;
-    let mut clean = true; // only own-session, in-order messages so far and no SyncEnd yet
+    // the session ended: SyncEnd / EndSession accepted, or EndSession emitted by the requester
+    let mut over: Option<&'static str> = None;
+    // the requester is known to wait for response `accepted`: fresh, after an accepted response, or
+    // after it emitted a SyncResume; unknown (false) after anything else
+    let mut live = true;
     let mut gaps = false;
-    let mut foreign = false;
-    let full: Vec<(bool, u8)> = (0..c.prefix).map(|i| (false, i)).chain(c.seq.iter().copied()).collect();
-    for (k, (from_y, i)) in full.iter().enumerate() {
-        let list = if *from_y { &w.sess_y } else { &w.sess_x };
-        let m = &list[(*i as usize).min(list.len() - 1)];
-        let r = recv(&mut req, &m.bytes);
-        let in_order = !*from_y && ((m.hdr.kind == 0 && m.hdr.index == Some(accepted)) || (m.hdr.kind == 1 && m.hdr.index == Some(accepted)));
-        if *from_y {
-            foreign = true;
-            ensure!(matches!(r, Recv::Err(_)), "requester accepted a message of a different session", "step {k}: {:?}", m.hdr);
+    let mut foreign_seen = false;
+    let mut rejected_own = false;
+    let mut resumed = false;
+    let ops: Vec<OrderOp> = (0..c.prefix).map(|_| OrderOp::Receive(OrderMsg::Relative { delta: 0, real: true })).chain(c.ops.iter().cloned()).collect();
+    for (k, op) in ops.iter().enumerate() {
+        let m = match op {
+            OrderOp::Poll { small } => {
+                let target: &mut [u8] = if *small { &mut buf[..3] } else { &mut buf[..] };
+                let cap = target.len();
+                match req.poll(target, &mut empty, &cache.session_heads(), &mut rt.traversal.primary) {
+                    Ok((n, _)) => {
+                        ensure!(n <= cap, "requester reported more bytes than the buffer holds", "step {k}: {n} > {cap}");
+                        let out = &buf[..n];
+                        let Some((kind, sid, ri)) = parse_poll_out(out) else {
+                            fail!("requester poll output is not a poll message", "step {k}: {}", vcommon::hex(&out[..out.len().min(48)]));
+                        };
+                        ensure!(sid == SID_X, "requester emitted a message for a different session", "step {k}: kind {kind}, session {sid:#x}");
+                        ensure!(
+                            matches!(SyncIncoming::decode(out), Ok(SyncIncoming::Poll(p)) if p.session_id() == SID_X),
+                            "requester poll output does not decode as a poll of its session",
+                            "step {k}: kind {kind}"
+                        );
+                        match kind {
+                            2 => {
+                                ensure!(
+                                    accepted >= 1 && ri == Some(accepted - 1),
+                                    "SyncResume names a response that is not the last one received",
+                                    "step {k}: resume after response {ri:?}, but {accepted} responses were accepted so far (the last one received is {:?})",
+                                    accepted.checked_sub(1)
+                                );
+                                ensure!(over.is_none(), "requester resumed a session that ended", "step {k}: {over:?}");
+                                info.label("poll: SyncResume emitted");
+                                resumed = true;
+                                live = true;
+                            }
+                            3 => {
+                                info.label("poll: EndSession emitted");
+                                over = Some("EndSession sent by the requester");
+                                live = false;
+                            }
+                            _ => {
+                                info.label("poll: other request emitted");
+                                live = false;
+                            }
+                        }
+                    }
+                    Err(_) => {
+                        info.label("poll: error");
+                        live = false;
+                    }
+                }
+                continue;
+            }
+            OrderOp::Receive(m) => m,
+        };
+        // ---- the message
+        let real: Option<&SessMsg>;
+        let crafted: Vec<u8>;
+        let mut want_cmds: Option<usize> = None;
+        let mut is_push = false;
+        match m {
+            OrderMsg::Real { foreign, i } => {
+                let list: &Vec<SessMsg> = if *foreign { sess_y } else { sess_x };
+                real = Some(&list[(*i as usize).min(list.len() - 1)]);
+                crafted = Vec::new();
+            }
+            OrderMsg::Relative { delta, real: r } => {
+                let target = accepted.saturating_add_signed(i64::from(*delta));
+                let found = if *r { sess_x.iter().find(|x| x.hdr.index == Some(target)) } else { None };
+                real = found;
+                crafted = if found.is_none() {
+                    want_cmds = Some(2);
+                    crafted_response(SID_X, target, 2, false)
+                } else {
+                    Vec::new()
+                };
+            }
+            OrderMsg::Response { sess_xor, index, ncmds, push } => {
+                real = None;
+                want_cmds = Some(*ncmds as usize);
+                is_push = *push;
+                crafted = crafted_response(SID_X ^ u128::from(*sess_xor), u64::from(*index), *ncmds, *push);
+            }
+            OrderMsg::End { sess_xor, max_index } => {
+                real = None;
+                let mut e = Vec::new();
+                enc(&1u32, &mut e);
+                enc(&(SID_X ^ u128::from(*sess_xor)), &mut e);
+                enc(&u64::from(*max_index), &mut e);
+                enc(&false, &mut e);
+                crafted = e;
+            }
+            OrderMsg::EndSession { sess_xor } => {
+                real = None;
+                let mut e = Vec::new();
+                enc(&3u32, &mut e);
+                enc(&(SID_X ^ u128::from(*sess_xor)), &mut e);
+                crafted = e;
+            }
+            OrderMsg::Offer { sess_xor } => {
+                real = None;
+                let mut e = Vec::new();
+                enc(&2u32, &mut e);
+                enc(&(SID_X ^ u128::from(*sess_xor)), &mut e);
+                enc(&spec_id(4), &mut e);
+                crafted = e;
+            }
         }
-        let took = judge(&r, &m.bytes, Some(m.hdr), SID_X, accepted, "session replay")?;
+        let bytes: &[u8] = real.map_or(crafted.as_slice(), |x| x.bytes.as_slice());
+        if let Some(x) = real {
+            if x.hdr.kind == 0 {
+                want_cmds = Some(x.ncmds);
+            }
+        }
+        let hdr = if is_push { parse_push(bytes) } else { parse_resp(bytes).map(|x| x.0) };
+        let Some(hdr) = hdr else {
+            fail!("harness: own parser does not understand a message it built", "step {k}: {m:?}");
+        };
+        let r = if is_push {
+            match SyncIncoming::decode(bytes) {
+                Ok(SyncIncoming::Push(p)) => match req.receive_push(p) {
+                    Ok(Some(cmds)) => {
+                        let ok = cmds.iter().all(|c| inside(bytes, c.bytes()) && c.policy().is_none_or(|p| inside(bytes, p)));
+                        Recv::Cmds(cmds.len(), ok, cmds.iter().map(|c| c.id()).collect())
+                    }
+                    Ok(None) => Recv::NoCmds,
+                    Err(e) => Recv::Err(format!("{e:?}")),
+                },
+                other => fail!("well-formed push failed to decode", "step {k}: {:?}", other.map(|_| ())),
+            }
+        } else {
+            recv(&mut req, bytes)
+        };
+        // ---- safety
+        let foreign = hdr.session != SID_X;
+        if foreign {
+            foreign_seen = true;
+            ensure!(matches!(r, Recv::Err(_)), "requester accepted a message of a different session", "step {k}: {hdr:?}");
+        }
+        if let (Some(why), Recv::Cmds(n, ..)) = (over, &r) {
+            fail!("requester accepted commands after the session ended", "step {k}: {n} commands from {hdr:?}; {why}");
+        }
+        let took = judge(&r, bytes, Some(hdr), SID_X, accepted, "op sequence")?;
         if took {
-            if let Recv::Cmds(n, _, _) = &r {
-                ensure!(*n == m.ncmds, "requester returned a different number of commands than the responder sent", "step {k}: {n} vs {}", m.ncmds);
+            if let (Recv::Cmds(n, ..), Some(wn)) = (&r, want_cmds) {
+                ensure!(*n == wn, "requester returned a different number of commands than the message carries", "step {k}: {n} vs {wn}");
             }
-            accepted += 1;
+            if resumed {
+                info.label("response accepted after a resume");
+            }
         }
-        if clean && in_order {
-            // a valid session delivered in order must be accepted
-            match (&r, m.hdr.kind) {
+        // ---- nothing lost: a requester known to wait for response `accepted` takes exactly that one
+        let in_order = !foreign && hdr.kind <= 1 && hdr.index == Some(accepted);
+        if live && over.is_none() && in_order {
+            match (&r, hdr.kind) {
                 (Recv::Cmds(..), 0) | (Recv::NoCmds, 1) => {}
-                (Recv::Err(e), _) => fail!("requester refused a valid in-order message of its own session", "step {k}: {:?}: {e}", m.hdr),
-                _ => fail!("requester misread a valid in-order message", "step {k}: {:?}", m.hdr),
+                (Recv::Err(e), _) => fail!("requester refused a valid in-order message of its own session", "step {k}: {hdr:?} with {accepted} accepted: {e}"),
+                _ => fail!("requester misread a valid in-order message", "step {k}: {hdr:?}"),
             }
-            if m.hdr.kind == 1 {
-                clean = false;
+        }
+        // ---- model update
+        match &r {
+            Recv::Cmds(..) => {
+                accepted += 1;
+                live = true;
             }
-        } else if !*from_y {
-            if !in_order {
-                gaps = true;
+            Recv::NoCmds => {
+                match hdr.kind {
+                    1 => over = Some("SyncEnd accepted"),
+                    3 => over = Some("EndSession accepted"),
+                    _ => {}
+                }
+                live = false;
             }
-            clean = false;
+            Recv::Err(_) => {
+                if !foreign {
+                    if hdr.kind <= 1 && !in_order {
+                        gaps = true;
+                    }
+                    rejected_own = true;
+                    live = false;
+                }
+            }
         }
     }
-    if foreign || gaps {
+    if foreign_seen || gaps {
         info.nontrivial();
     }
-    if foreign {
+    if foreign_seen {
         info.label("foreign-session message interleaved");
     }
     if gaps {
         info.label("gap / replay / reordering");
     }
+    if rejected_own && resumed {
+        info.label("rejection followed by a resume round trip");
+    }
     if accepted >= 2 {
         info.label("accepted>=2 responses");
+    }
+    if over.is_some() {
+        info.label("session ended inside the sequence");
     }
     Ok(())
 }
@@ -1258,7 +1492,7 @@ pub fn run(ctx: &Ctx) -> ! {
     );
     rep.explore(
         "session_order",
-        "0..3 in-order messages of session X followed by 1..9 valid messages of two real sessions X and Y (same graph, responses 0..n and SyncEnd) delivered in any order to a requester of session X created by poll() or new_session_id(): foreign-session messages => Err; commands accepted only with the next index; a valid in-order prefix must be accepted with the same number of commands the responder sent. non-trivial = a foreign, replayed, skipped or reordered message in the sequence",
+        "one requester of session X (created by poll() or new_session_id()), 0..3 in-order messages first, then 1..13 generated ops: Receive (a valid message of the real sessions X or Y (same graph, responses 0..n and SyncEnd) by position; the real or a crafted well-formed response with index = accepted+delta, delta -2..4; crafted SyncResponse via receive or receive_push / SyncEnd / EndSession / Offer with chosen session and index) or Poll (full-size buffer, 10% a 3-byte one). Model: accepted = responses accepted so far. Oracle: foreign session => Err; commands only from a SyncResponse of session X with index == accepted (a rejected message never advances it, polls in between or not) and with the number of commands the message carries; nothing accepted after SyncEnd/EndSession was accepted or EndSession was sent; every poll output is a poll message of session X; a SyncResume names accepted-1 and needs accepted >= 1; a requester known to wait (fresh, after an accepted response, after emitting SyncResume) accepts the in-order message. non-trivial = a foreign, replayed, skipped or reordered message in the sequence",
         order_case,
         ctx.pick(20_000, 500_000),
         |c: &OrderCase, info: &mut CaseInfo| with_world(|w| check_order(w, c, info)),
